@@ -115,11 +115,15 @@ def rotate3d(n: npt.ArrayLike, theta: float) -> npt.NDArray[np.float32]:
         dtype=np.float32,
     )
 
-    return (
-        np.cos(theta) * np.identity(4)
+    n = n[0:3]
+    # pylint: disable-next=invalid-name
+    T = np.identity(4)
+    T[:3, :3] = (
+        np.cos(theta) * np.identity(3)
         + (1 - np.cos(theta)) * n * n[:, None]
         + np.sin(theta) * N
     )
+    return T
 
 
 def rotate3d_x(theta: float) -> npt.NDArray[np.float32]:
